@@ -100,7 +100,9 @@ type c16Space struct {
 
 var (
 	c16Tokens     = []string{"ALL", "IMM", "IMM01", "IMM02", "CTOR01", "ZZZ"}
-	c16Pairs      = [][]string{{"IMM01", "CTOR01"}, {"ZZZ", "ALL"}}
+	// multi-token lists of one marker: distinct codes, an unknown next to ALL, the same token twice (also around another
+	// one, and for ALL), a code next to its own category in both orders
+	c16Pairs = [][]string{{"IMM01", "CTOR01"}, {"ZZZ", "ALL"}, {"IMM01", "IMM01"}, {"IMM01", "IMM02", "IMM01"}, {"ALL", "ALL"}, {"IMM", "IMM01"}, {"IMM01", "IMM"}}
 	c16QueryCodes = []string{"IMM01", "IMM02", "IMM", "CTOR01", "CTOR02", "CTOR", "TONL01", "ZZZ"}
 )
 
